@@ -418,7 +418,10 @@ def run_framing(ctx, drv, twin):
             ids, frames = mk(objs)
             full = b"".join(frames)
             cuts = list(_cuts3(len(full)))
-            lines, impls = run_stream_batch(ctx, drv, rig, "short-exhaustive", frames, objs, ids, full, cuts)
+            if len(full) > 130:                 # a long payload frame: seeded sample instead of all cuts
+                cuts = rng.sample(cuts, 6000)
+            lines, impls = run_stream_batch(ctx, drv, rig, "short-exhaustive" if len(full) <= 130 else
+                                            "payload-sampled", frames, objs, ids, full, cuts)
             if len(kernel_samples) < 3 and len(full) <= 80:
                 k = rng.randrange(len(lines))
                 kernel_samples.append((lines[k], impls[k]))
@@ -434,7 +437,7 @@ def run_framing(ctx, drv, twin):
                 elif len(full) <= 60:
                     c = allc
                 else:
-                    c = rng.sample(allc, min(len(allc), 150))
+                    c = rng.sample(allc, min(len(allc), 150 if len(full) <= 130 else 30))
                 ls, im = run_stream_batch(ctx, drv, rig, "short-truncated", frames, objs, ids, stream, c,
                                           lazy=bool(n % 2))
                 if ls and len(kernel_samples) < 6 and n in (7, 18, 23) and len(full) <= 80:
@@ -527,20 +530,24 @@ class Live:
         self.twin = KlongInterpreter()
         _setup_interp(self.srv)
         _setup_interp(self.twin)
-        s = socket.socket()
-        s.bind(("127.0.0.1", 0))
-        self.port = s.getsockname()[1]
-        s.close()
         if ipc._ipc_tcp_server.task is not None:
             raise Infra("an IPC server is already running in this process")
-        r = self.srv(f'.srv("127.0.0.1:{self.port}")')
-        if r != 1:
-            raise Infra(f".srv returned {r}")
-        t0 = time.time()
-        while ipc._ipc_tcp_server.server is None:
-            if time.time() - t0 > 20:
-                raise Infra("IPC server did not start listening")
-            time.sleep(0.005)
+        for attempt in range(3):
+            s = socket.socket()
+            s.bind(("127.0.0.1", 0))
+            self.port = s.getsockname()[1]
+            s.close()
+            r = self.srv(f'.srv("127.0.0.1:{self.port}")')
+            if r != 1:
+                raise Infra(f".srv returned {r}")
+            t0 = time.time()
+            while ipc._ipc_tcp_server.server is None and time.time() - t0 < 10:
+                time.sleep(0.005)
+            if ipc._ipc_tcp_server.server is not None:
+                break
+            self.srv(".srv(0)")            # the port was taken in between: try another one
+        else:
+            raise Infra("IPC server did not start listening")
         self.connect(0)
         self.connect(1)
 
@@ -974,7 +981,7 @@ def _load_corpus(ctx, live, drv, singleton):
 def run(ctx):
     from klongpy import KlongInterpreter
     quick = ctx.tier == "quick"
-    _watchdog(80 if quick else 1500)
+    _watchdog(300 if quick else 2400)
     drv = Driver("c13") if getattr(ctx, "driver_ok", True) else None
     ctx.rule = ("(a) byte streams of 1..3 real encode_message frames under every cut into <= 3 reads (short frames), "
                 "seeded cuts (universe payloads, long frames), complete and truncated at every byte, pre-fed and fed "
@@ -991,8 +998,13 @@ def run(ctx):
     try:
         twin = KlongInterpreter()
         singleton = check_tau(ctx, twin)
+        t0 = time.time()
         samples = run_framing(ctx, drv, twin)
+        ctx.extra["framing_s"] = round(time.time() - t0, 1)
+        t0 = time.time()
         kernel_obligation(ctx, samples)
+        ctx.extra["kernel_recheck_s"] = round(time.time() - t0, 1)
+        t0 = time.time()
         framing_broken = [f["key"] for f in ctx.oracle_failures
                           if f["key"].startswith("stream:") and not f["key"].endswith(":undefined")]
         if framing_broken:
@@ -1007,6 +1019,7 @@ def run(ctx):
                 if not ctx.oracle_failures:
                     raise
                 ctx.extra["live_pair"] = f"aborted after a failing input had been found: {e}"
+            ctx.extra["live_s"] = round(time.time() - t0, 1)
     finally:
         try:
             if live is not None:
